@@ -44,6 +44,10 @@ def compile_parent_tasks():
     return [T(f"Ovld.compile[{g},first_use_of_the_parent]", m.t_compile(g, which="root")) for g in ("linked_child", "linked_chain3", "siblings")]
 
 
+def next_resolve_tasks():
+    return [T(f"Ovld.{wh}[{na} arguments]", m.t_next_resolve(wh, na)) for wh in ("next", "resolve") for na in (0, 1, 2)]
+
+
 def lock_tasks():
     return [T("Ovld.compile.transitive_lock[chain3]", m.t_transitive_lock())]
 
